@@ -1054,7 +1054,9 @@ class Calendar(MutableTimeline[Event]):
         _, existing_exdates = _parse_exdates_from_rrule(rrule_str)
         if exdate_str not in existing_exdates:
             new_rrule = _add_exdate_to_rrule(rrule_str, exdate_str)
-            master_event.recurrence = [new_rrule]
+            # Only the RRULE line changes; further recurrence lines (EXDATE or
+            # RDATE lines of their own) are kept
+            master_event.recurrence = [new_rrule, *master_event.recurrence[1:]]
 
             # Update the master event
             try:
